@@ -268,7 +268,7 @@ pub fn gen_case(t: &mut Tape) -> Case {
     };
     let mut tr = gen::gen_trait(t, "Tr", &cfg);
     if t.chance(1, 6) {
-        tr.attrs.push("#[async_trait::async_trait]".into());
+        tr.attrs.push(gen::async_trait_attr(t));
     }
     if t.chance(1, 10) {
         tr.attrs.insert(0, "#[mockall::automock]".into());
